@@ -2,7 +2,7 @@
    On the specification machines this holds for every state and operation (theorems below): their force is the
    correspondence with the implementation on histories that contain failing operations.  On the faithful model the
    property is false today: refutations pinned as runs of M_py. *)
-From MX Require Import Spec.Particle Gen.Names Gen.Templates Model.AbsSeq Model.Classes Model.SeqMachine Model.AbsBag Model.PyM Model.PyObs.
+From MX Require Import Spec.Particle Gen.Names Gen.Templates Model.AbsSeq Model.Classes Model.SeqMachine Model.AbsBag Model.PyM Model.PyObs Gen.Code Model.EltEffects.
 From Coq Require Import List Bool Arith.
 Import ListNotations.
 
@@ -31,6 +31,24 @@ Print Assumptions C10_partial_seq_future.
 Theorem C10_partial_bag : forall alpha s o, snd (bstep alpha s o) <> BOk -> fst (fst (bstep alpha s o)) = fst s.
 Proof. intros alpha s [a|]; simpl; [|intros H; exfalso; apply H; auto]. destruct (mem_pos a alpha); simpl; auto. intros H; exfalso; apply H; auto. Qed.
 Print Assumptions C10_partial_bag.
+
+(* ---- the element-level half: order of checks and stores in XMLElement.add_child / remove / value_ setter, read from the source ---- *)
+Theorem C10_element_checks_first : tr_element_ok = true /\ checks_first elt_add_child = true /\ checks_first elt_remove = true /\ checks_first elt_value_set = true.
+Proof. repeat split; reflexivity. Qed.
+(* hence a call of one of the three that raises - at whatever check, for whatever reason - has stored nothing in the element *)
+Theorem C10_element_atomic : forall effs, In effs [elt_add_child; elt_remove; elt_value_set] ->
+  forall fails log, fst (eexec effs fails 0 log) = ERaised -> snd (eexec effs fails 0 log) = log.
+Proof.
+  intros effs I fails log. apply checks_first_atomic. destruct C10_element_checks_first as (_ & A & B & C).
+  destruct I as [<-|[<-|[<-|[]]]]; assumption.
+Qed.
+Print Assumptions C10_element_atomic.
+Example C10_element_nonvacuous : (Nat.leb 2 (length elt_add_child) && Nat.leb 3 (length elt_remove) && Nat.leb 2 (length elt_value_set))%bool = true
+  /\ fst (eexec elt_remove (fun i => Nat.eqb i 0) 0 []) = ERaised /\ fst (eexec elt_add_child (fun i => Nat.eqb i 1) 0 []) = ERaised.
+Proof. vm_compute. auto. Qed.
+(* a store before a check is what the theorem excludes: remove() with the container bookkeeping ahead of the membership check *)
+Example C10_element_bad_order_refuted : snd (eexec [XRead; XContainer; XListRemove; XSetParent] (fun i => Nat.eqb i 2) 0 []) <> [].
+Proof. vm_compute. discriminate. Qed.
 
 (* ---- refutations on the faithful model ---- *)
 (* RC2: the rejected forward add stays attached *)
